@@ -319,6 +319,7 @@ def run(ctx):
     ctx.check(got3 == [want3], "floor", "compress-eq", "%d SHA-256 block-function runs (portable, 4-way SSE4.1 incl. scalar tail, 8-way AVX) equal the FIPS 180-4 compression as value graphs, hence each other" % want3, "only %s SHA-256 comparisons ran (expected %d)" % (got3, want3), key="floor:compress-eq")
     from . import arx
     got2 = []
-    ctx.guard("block-eq", "chacha-engines", lambda: got2.append(arx.check_engines(ctx, {k: progs[k] for k in ("K0", "K6") if k in progs}, families=("chacha",))))
-    ctx.check(got2 == [32], "floor", "block-eq", "both ChaCha engines: 2 x 16 pieces equal the same specification graphs, hence each other", "only %s ChaCha engine pieces were compared (expected 32)" % got2, key="floor:block-eq")
+    ctx.guard("block-eq", "chacha-engines", lambda: got2.append(arx.check_engines(ctx, {k: progs[k] for k in ("K0", "K6", "K3", "K5") if k in progs}, families=("chacha",))))
+    want2 = 16 * len([k for k in ("K0", "K6", "K3", "K5") if k in progs])
+    ctx.check(got2 == [want2] and want2 >= 32, "floor", "block-eq", "the ChaCha engines of the portable, default, +sse4.1 and +avx2 builds: %d pieces equal the same specification graphs, hence each other" % want2, "only %s ChaCha engine pieces were compared (expected %d)" % (got2, want2), key="floor:block-eq")
     ctx.not_decided += ["block counts beyond the compared runs (the batch / tail loop structure is decided by the stride and block-run rules)", "input alignment independence beyond the aligned-access rule"]
